@@ -40,6 +40,7 @@ type Model struct {
 	Dropped  int                    // events that found no armed matching listener
 	boundaryFired map[string]int
 	Throws   map[string]int // throw events passed by a token
+	SubDone  map[string]int // sub-process node -> activations that ran empty (the parent token continued)
 	Reqs     map[string]int
 	Violations []string
 	// loopCount counts answers per counter variable (the driver mirrors this)
@@ -187,6 +188,10 @@ func (m *Model) arrive(f *Flow, a *activation) {
 func (m *Model) consume(a *activation) {
 	a.live--
 	if a.live == 0 && a.parent != nil {
+		if m.SubDone == nil {
+			m.SubDone = map[string]int{}
+		}
+		m.SubDone[a.sub.ID]++
 		m.leaveAll(a.sub, a.parent)
 	}
 }
